@@ -45,6 +45,10 @@ class OutputSuppressionContext:
       stdio fd), they are restored on exit.
     """
 
+    # The real `open`: while a test case runs with filesystem isolation, the builtin
+    # is replaced by a wrapper that refuses to write outside the sandbox.
+    _open = staticmethod(open)
+
     # Repeatedly opening/closing devnull caused problems.
     # This is closed when Pynguin terminates, since we don't need this output
     # anyway this is acceptable.
@@ -99,7 +103,7 @@ class OutputSuppressionContext:
             unusable = True
         if unusable:
             # A previously executed test case closed the shared sink (sys.stdout.close()).
-            OutputSuppressionContext._null_file = open(os.devnull, mode="w")  # noqa: PLW1514, PTH123, SIM115
+            OutputSuppressionContext._null_file = self._open(os.devnull, mode="w")  # noqa: PLW1514
         sys.stdout = self._null_file
         sys.stderr = self._null_file
 
